@@ -179,7 +179,14 @@ func (s *sharedEntryAttributes) resolve_leafref_key_path(ctx context.Context, ke
 			return err
 		}
 
+		// a key value that is on its way out cannot select anything
+		if !keyValue.remainsToExist() {
+			return fmt.Errorf("leafref key %s refers to %s, which does not remain", k, v.value)
+		}
 		lvs := keyValue.GetHighestPrecedence(LeafVariantSlice{}, false)
+		if len(lvs) == 0 {
+			return fmt.Errorf("leafref key %s refers to %s, which holds no value", k, v.value)
+		}
 		tv, err := lvs[0].Value()
 		if err != nil {
 			return err
